@@ -252,8 +252,9 @@ fn shapes(tier: Tier) -> Vec<Shape> {
                 // quick: blob encryption/decryption costs seconds, so
                 // only the suffixes that touch the file secret (slot 3)
                 // keep the attachment of the base history
-                let touches_file = q.iter().any(|i| matches!(&alpha[*i], Op::Move { s: 3, .. } | Op::DeleteSecret { s: 3 }));
-                if tier == Tier::Quick && !touches_file {
+                let touches_file = q.iter().any(|i| matches!(&alpha[*i], Op::Move { s: 3, .. } | Op::DeleteSecret { s: 3 } | Op::AttachField { .. }));
+                // thorough: every length-1 suffix keeps it too
+                if (tier == Tier::Quick || q.len() > 1) && !touches_file {
                     ops.retain(|o| !matches!(o, Op::Attach { .. }));
                 }
                 ops.extend(q.iter().map(|i| alpha[*i].clone()));
@@ -839,7 +840,8 @@ async fn run_roundtrip(shapes: &[Shape], it: &Item, wd: &Path, marker: &str, sha
         // quick: the source blobs are listed only (each decryption costs
         // seconds); the restored ones are compared with the plain bytes
         // that were put in
-        let src_att = attachments_view(&mut dev.account, tier == Tier::Thorough).await?;
+        let decrypt_source = tier == Tier::Thorough && shape.ops.len() <= 8;
+        let src_att = attachments_view(&mut dev.account, decrypt_source).await?;
         let mut expected_att: Vec<String> = st
             .attachments
             .iter()
@@ -850,7 +852,7 @@ async fn run_roundtrip(shapes: &[Shape], it: &Item, wd: &Path, marker: &str, sha
         if src_att.len() != expected_att.len() {
             return Err(anyhow!("source account lists {} external files, {} expected", src_att.len(), expected_att.len()));
         }
-        if tier == Tier::Thorough {
+        if decrypt_source {
             let mut got: Vec<String> = src_att.values().cloned().collect();
             got.sort();
             if got != expected_att {
